@@ -122,7 +122,7 @@ def wordbeg (ls : Lines) (big : Bool) (dir : Int) (r o : Int) : Bool × Int × I
       | 0, r, o, _ => (true, r, o)
       | f + 1, r, o, nl =>
         if isSpaceAt ls r o then
-          let nl := nl + (if codeAt ls r o == 10 then 1 else 0)
+          let nl := if codeAt ls r o == 10 then nl + 1 else 0
           if nl == 2 then (false, r, o) else
           match next ls dir r o with
           | none => (true, r, o)
@@ -149,7 +149,7 @@ def wordend (ls : Lines) (big : Bool) (dir : Int) (r o : Int) : Bool × Int × I
           match next ls dir r o with
           | none => some (true, r, o)
           | some (r', o') =>
-            let nl := nl + (if codeAt ls r' o' == 10 then 1 else 0)
+            let nl := if codeAt ls r' o' == 10 then nl + 1 else 0
             if nl == 2 then
               (if dir < 0 then
                 (match next ls (-dir) r' o' with
@@ -167,7 +167,7 @@ def wordend (ls : Lines) (big : Bool) (dir : Int) (r o : Int) : Bool × Int × I
           match next ls dir r o with
           | none => (r, o)
           | some (r', o') =>
-            let nl := nl + (if codeAt ls r' o' == 10 then 1 else 0)
+            let nl := if codeAt ls r' o' == 10 then nl + 1 else 0
             if nl == 2 then (r', o') else pos f r' o' nl
         else (r, o)
     let total := ls.foldl (fun a l => a + l.length) 0 + 2
